@@ -114,7 +114,67 @@ fn operand_form(k: u64, name: &str) -> Vec<Tok> {
 fn no_sequence_cfg(depth: u32) -> AstCfg {
     let mut c = AstCfg::structural(depth);
     c.sequences = false;
+    c.opaque = true;
     c
+}
+
+/// Long spines: one brace level with many operators along one path — prefix runs, `=` chains,
+/// juxtaposed calls, ascending-precedence chains, long left-associative chains.
+fn arb_spine() -> BoxedStrategy<AstCase> {
+    let var = |i: usize| Ast::Var(["a", "b", "c", "x"][i % 4].to_string());
+    let prefix_run = proptest::collection::vec(any::<bool>(), 1..48).prop_map(move |ops| {
+        let mut e = var(0);
+        for neg in ops {
+            e = if neg { Ast::Neg(Box::new(e)) } else { Ast::Not(Box::new(e)) };
+        }
+        e
+    });
+    let assign_chain = (1usize..40).prop_map(move |n| {
+        let mut e = Ast::Lit(refmodel::value::RV::Int(1));
+        for i in 0..n {
+            e = Ast::Assign(AssignOp::Set, ["a", "b", "c", "x"][i % 4].to_string(), Box::new(e));
+        }
+        e
+    });
+    let call_chain = (1usize..40, any::<bool>()).prop_map(move |(n, g)| {
+        let mut e = var(1);
+        for i in 0..n {
+            e = Ast::Call(if g && i % 2 == 0 { "g" } else { "f" }.to_string(), Box::new(e));
+        }
+        e
+    });
+    // r = a || b && c == d + e * <prefix run> f ^ g  (every precedence level once, then a run)
+    let ascending = (0usize..30, 0usize..12).prop_map(move |(run, assigns)| {
+        let mut e = Ast::Bin(BinOp::Exp, Box::new(var(0)), Box::new(var(1)));
+        for i in 0..run {
+            e = if i % 3 == 2 { Ast::Not(Box::new(e)) } else { Ast::Neg(Box::new(e)) };
+        }
+        for op in [BinOp::Mul, BinOp::Add, BinOp::Eq, BinOp::And, BinOp::Or] {
+            e = Ast::Bin(op, Box::new(var(2)), Box::new(e));
+        }
+        for i in 0..assigns {
+            e = Ast::Assign(AssignOp::Set, ["a", "b", "c", "x"][i % 4].to_string(), Box::new(e));
+        }
+        e
+    });
+    // arbitrary right-nested binary chain (the renderer adds the parentheses the table requires)
+    let right_nested = proptest::collection::vec(proptest::sample::select(BinOp::ALL.to_vec()), 1..40).prop_map(move |ops| {
+        let mut e = var(3);
+        for (i, op) in ops.into_iter().enumerate() {
+            e = Ast::Bin(op, Box::new(var(i)), Box::new(e));
+        }
+        e
+    });
+    let left_nested = proptest::collection::vec(proptest::sample::select(BinOp::ALL.to_vec()), 1..60).prop_map(move |ops| {
+        let mut e = var(3);
+        for (i, op) in ops.into_iter().enumerate() {
+            e = Ast::Bin(op, Box::new(e), Box::new(var(i)));
+        }
+        e
+    });
+    (prop_oneof![prefix_run, assign_chain, call_chain, ascending, right_nested, left_nested], gen::arb_bits())
+        .prop_map(|(ast, bits)| AstCase { ast, bits })
+        .boxed()
 }
 
 #[derive(Clone, Debug)]
@@ -127,7 +187,7 @@ pub struct AstCase {
 pub fn check_ast(c: &AstCase, prop: &str, l: &mut Local) -> Outcome {
     let min = render_tokens(&c.ast, &mut Minimal);
     let red = render_tokens(&c.ast, &mut BitChoices::new(&c.bits));
-    for (which, toks) in [("minimal parentheses", &min), ("redundant parentheses", &red)] {
+    for (which, toks, tight) in [("minimal parentheses", &min, false), ("redundant parentheses", &red, false), ("minimal parentheses, no spaces", &min, true)] {
         // oracle self-consistency: the reference grammar must read the rendering back as `ast`
         match classify(toks) {
             Class::WellFormed(back) if back.strip_parens().same(&c.ast) => {},
@@ -141,7 +201,14 @@ pub fn check_ast(c: &AstCase, prop: &str, l: &mut Local) -> Outcome {
                 );
             },
         }
-        let src = tok::render_spaced(toks);
+        let src = if tight { tok::render_tight(toks) } else { tok::render_spaced(toks) };
+        if tight {
+            // admissibility of the tight rendering, by the reference tokenizer
+            match tok::lex(&src) {
+                Ok(o) if o.toks == **toks => {},
+                _ => continue,
+            }
+        }
         if let Err((kind, got)) = compare_tree(&src, &c.ast) {
             return fail(
                 format!("{}/round-trip ({}): {}", prop, which, kind),
@@ -173,7 +240,9 @@ pub fn run(rep: &Report) {
          (a, -a, !a, - -a, !-a, f a, f(a), (a)); all 9 assignment operators x pairs of binary operators. (b) every \
          token sequence up to the length bound over the base alphabet without `,`/`;` (those belong to C05), \
          classified by the independent reference parser. (c) random ASTs rendered with minimal and with redundant \
-         parentheses. Oracle: normalise(build_operator_tree(render(tokens))) == reference tree. Non-trivial: >= 2 \
+         parentheses and without spaces, with D6 words as opaque operands; long spines (prefix runs, `=` chains, \
+         juxtaposed calls, ascending-precedence chains up to 60 operators on one brace level). Oracle: \
+         normalise(build_operator_tree(render(tokens))) == reference tree. Non-trivial: >= 2 \
          operators, or a call next to an operator; unclaimed (D1-D4) and ill-formed sequences are counted, not asserted.",
     );
     rep.assume("reference grammar = the documented precedence table; D1-D4 regions are not asserted");
@@ -268,6 +337,11 @@ pub fn run(rep: &Report) {
     let depth = rep.tier.pick(6u32, 12);
     common::random_search(rep, "random-asts", 20, n, &move || arb_ast_case(no_sequence_cfg(depth)), &|c: &AstCase, l| {
         l.sample(3, || json!({"ast": c.ast.sexp(), "minimal": tok::render_spaced(&render_tokens(&c.ast, &mut Minimal))}));
+        check_ast(c, "C02", l)
+    });
+    let n_spine = rep.tier.pick(20_000u64, 300_000);
+    common::random_search(rep, "long-spines", 21, n_spine, &arb_spine, &|c: &AstCase, l| {
+        l.label("long spine");
         check_ast(c, "C02", l)
     });
     let _ = has_separator;
